@@ -21,6 +21,8 @@ import DarkluaModel.Rules.UnusedVariableHeap
 import DarkluaModel.Rules.UnusedVariableHeapV
 import DarkluaModel.Rules.UnusedVariableHeapV2
 import DarkluaModel.Rules.UnusedVariableHeapV3
+import DarkluaModel.Rules.UnusedVariableHeapV4
+import DarkluaModel.Rules.UnusedVariableHeapV5
 import DarkluaModel.Shared.VisitorSound.HeapV.VOracle
 import DarkluaModel.Rules.NilDeclarationHeap
 import DarkluaModel.Rules.NilDeclarationHeap2
@@ -871,6 +873,96 @@ example : Rules.UnusedVariable.GuardedV3.applyG (c08Api C08.toyN C08.toyE) unuse
       .mk [.assign [.var "_"] [.num 5], .localAssign .loc [.mk "t" none] [.table [.named "k" (.num 1)]],
            .doBlock (.mk [.localAssign .loc [.mk "_" none] [.field (.var "t") "k"]] none)] (some (.ret [.var "_"])) := by rfl
   have h3 : Rules.UnusedVariable.GuardedV2.applyG (c08Api C08.toyN C08.toyE) unusedFieldSample = unusedFieldSample := by rfl
+  exact ⟨h1.trans h2.symm, h2, h3⟩
+
+/-- **Whole rule, fifth fragment** (`_partialV4`): the guarded version additionally performs the rule's replacement of
+an unused declaration with SEVERAL values, each of which is a call (under parentheses / casts) or allocation-only
+and side-effect free for the evaluator, by the calls in order (`local a, b = f(), g()` ↦ `do f() g() end`,
+`local a, b, c = {}, f(), 1` ↦ `f()`). New stage-4 leaf `Sem.HeapV.localToCalls_sound` (list version of
+`localToCall_sound`: the values evaluated for effect on the left, the calls among them on the right). -/
+theorem rule_refines_remove_unused_variable_partialV4 (api : EvalApi) (b : Block)
+    (h : Rules.UnusedVariable.GuardedV4.applyG api b = Rules.UnusedVariable.apply api b)
+    {N : NumOps} (ρ : ExtOracle N) (hρ : Sem.HeapV.OracleFlat ρ) (n : Nat) (externs : List String) :
+    runProgram ρ n externs (Rules.UnusedVariable.apply api b) = runProgram ρ n externs b :=
+  Rules.UnusedVariable.GuardedV4.apply_refines_of_agree api b h ρ hρ n externs
+
+/-- that guarded rule is sound on EVERY program -/
+theorem rule_refines_remove_unused_variable_guardedV4 (api : EvalApi) (b : Block)
+    {N : NumOps} (ρ : ExtOracle N) (hρ : Sem.HeapV.OracleFlat ρ) (n : Nat) (externs : List String) :
+    runProgram ρ n externs (Rules.UnusedVariable.GuardedV4.applyG api b) = runProgram ρ n externs b :=
+  Rules.UnusedVariable.GuardedV4.applyG_refines api b ρ hρ n externs
+
+theorem rule_refines_remove_unused_variable_partialV4_driver (api : EvalApi) (b : Block)
+    (h : Rules.UnusedVariable.GuardedV4.applyG api b = Rules.UnusedVariable.apply api b) (n : Nat) (externs : List String) :
+    runProgram Shared.driverOracle n externs (Rules.UnusedVariable.apply api b) = runProgram Shared.driverOracle n externs b :=
+  rule_refines_remove_unused_variable_partialV4 api b h _ Sem.HeapV.driverOracle_flat n externs
+
+/-- `local a, b, c = {}, f(), (g()); return 1` -/
+def unusedCallsSample : Block :=
+  .mk [.localAssign .loc [.mk "a" none, .mk "b" none, .mk "c" none]
+        [.table [], .call (.var "f") none .tuple [], .paren (.call (.var "g") none .tuple [])]] (some (.ret [.num 1]))
+
+-- non-vacuity: the table is dropped, the two calls are kept in a block; inside the new `H`, outside the previous one
+example : Rules.UnusedVariable.GuardedV4.applyG (c08Api C08.toyN C08.toyE) unusedCallsSample =
+      Rules.UnusedVariable.apply (c08Api C08.toyN C08.toyE) unusedCallsSample ∧
+    Rules.UnusedVariable.apply (c08Api C08.toyN C08.toyE) unusedCallsSample =
+      .mk [.doBlock (.mk [.callStmt (.call (.var "f") none .tuple []), .callStmt (.call (.var "g") none .tuple [])] none)]
+        (some (.ret [.num 1])) ∧
+    Rules.UnusedVariable.GuardedV3.applyG (c08Api C08.toyN C08.toyE) unusedCallsSample = unusedCallsSample := by
+  have h1 : Rules.UnusedVariable.GuardedV4.applyG (c08Api C08.toyN C08.toyE) unusedCallsSample =
+      .mk [.doBlock (.mk [.callStmt (.call (.var "f") none .tuple []), .callStmt (.call (.var "g") none .tuple [])] none)]
+        (some (.ret [.num 1])) := by rfl
+  have h2 : Rules.UnusedVariable.apply (c08Api C08.toyN C08.toyE) unusedCallsSample =
+      .mk [.doBlock (.mk [.callStmt (.call (.var "f") none .tuple []), .callStmt (.call (.var "g") none .tuple [])] none)]
+        (some (.ret [.num 1])) := by rfl
+  have h3 : Rules.UnusedVariable.GuardedV3.applyG (c08Api C08.toyN C08.toyE) unusedCallsSample = unusedCallsSample := by rfl
+  exact ⟨h1.trans h2.symm, h2, h3⟩
+
+/-- **Whole rule, sixth fragment** (`_partialV5`): unused declarations with several values, kept NON-call values
+included — the post-fix shapes `do local _ = t.k  f()  local _ = t[1], o + 1 end` (calls as call statements,
+consecutive kept non-call values collected in one `local _`, a value that a later one could see through `_` in its
+own `do local _ = v end`, side-effect free values dropped). Guard: dropped values allocation-only, no value mentions
+`_`, the names are not `_` and not referenced afterwards. New stage-4 leaf `Sem.HeapV.localToStmts_sound` (relational
+core `mk_rel`: all values evaluated on the left, the statement list executed on the right with `_` dead). -/
+theorem rule_refines_remove_unused_variable_partialV5 (api : EvalApi) (b : Block)
+    (h : Rules.UnusedVariable.GuardedV5.applyG api b = Rules.UnusedVariable.apply api b)
+    {N : NumOps} (ρ : ExtOracle N) (hρ : Sem.HeapV.OracleFlat ρ) (n : Nat) (externs : List String) :
+    runProgram ρ n externs (Rules.UnusedVariable.apply api b) = runProgram ρ n externs b :=
+  Rules.UnusedVariable.GuardedV5.apply_refines_of_agree api b h ρ hρ n externs
+
+/-- that guarded rule is sound on EVERY program -/
+theorem rule_refines_remove_unused_variable_guardedV5 (api : EvalApi) (b : Block)
+    {N : NumOps} (ρ : ExtOracle N) (hρ : Sem.HeapV.OracleFlat ρ) (n : Nat) (externs : List String) :
+    runProgram ρ n externs (Rules.UnusedVariable.GuardedV5.applyG api b) = runProgram ρ n externs b :=
+  Rules.UnusedVariable.GuardedV5.applyG_refines api b ρ hρ n externs
+
+theorem rule_refines_remove_unused_variable_partialV5_driver (api : EvalApi) (b : Block)
+    (h : Rules.UnusedVariable.GuardedV5.applyG api b = Rules.UnusedVariable.apply api b) (n : Nat) (externs : List String) :
+    runProgram Shared.driverOracle n externs (Rules.UnusedVariable.apply api b) = runProgram Shared.driverOracle n externs b :=
+  rule_refines_remove_unused_variable_partialV5 api b h _ Sem.HeapV.driverOracle_flat n externs
+
+/-- `local a, b, c, d = t.k, f(), 1, t[1]; return 1` -/
+def unusedMixedSample : Block :=
+  .mk [.localAssign .loc [.mk "a" none, .mk "b" none, .mk "c" none, .mk "d" none]
+        [.field (.var "t") "k", .call (.var "f") none .tuple [], .num 1, .index (.var "t") (.num 1)]] (some (.ret [.num 1]))
+
+-- non-vacuity: non-call, call, (dropped literal), non-call; inside the new `H`, outside the previous one
+example : Rules.UnusedVariable.GuardedV5.applyG (c08Api C08.toyN C08.toyE) unusedMixedSample =
+      Rules.UnusedVariable.apply (c08Api C08.toyN C08.toyE) unusedMixedSample ∧
+    Rules.UnusedVariable.apply (c08Api C08.toyN C08.toyE) unusedMixedSample =
+      .mk [.doBlock (.mk [.localAssign .loc [.mk "_" none] [.field (.var "t") "k"],
+            .callStmt (.call (.var "f") none .tuple []),
+            .localAssign .loc [.mk "_" none] [.index (.var "t") (.num 1)]] none)] (some (.ret [.num 1])) ∧
+    Rules.UnusedVariable.GuardedV4.applyG (c08Api C08.toyN C08.toyE) unusedMixedSample = unusedMixedSample := by
+  have h1 : Rules.UnusedVariable.GuardedV5.applyG (c08Api C08.toyN C08.toyE) unusedMixedSample =
+      .mk [.doBlock (.mk [.localAssign .loc [.mk "_" none] [.field (.var "t") "k"],
+            .callStmt (.call (.var "f") none .tuple []),
+            .localAssign .loc [.mk "_" none] [.index (.var "t") (.num 1)]] none)] (some (.ret [.num 1])) := by rfl
+  have h2 : Rules.UnusedVariable.apply (c08Api C08.toyN C08.toyE) unusedMixedSample =
+      .mk [.doBlock (.mk [.localAssign .loc [.mk "_" none] [.field (.var "t") "k"],
+            .callStmt (.call (.var "f") none .tuple []),
+            .localAssign .loc [.mk "_" none] [.index (.var "t") (.num 1)]] none)] (some (.ret [.num 1])) := by rfl
+  have h3 : Rules.UnusedVariable.GuardedV4.applyG (c08Api C08.toyN C08.toyE) unusedMixedSample = unusedMixedSample := by rfl
   exact ⟨h1.trans h2.symm, h2, h3⟩
 
 /-! ### remove_nil_declaration — whole rule on a fragment (stage-3 lifting: equality up to cell renumbering) -/
